@@ -264,6 +264,10 @@ func run(t *testing.T, prof raftsim.Profile, rec *stats.Recorder) {
 				if c.S.St.ExcludedKnown > 0 {
 					rec.Count("excluded_by_known_finding", int64(c.S.St.ExcludedKnown))
 				}
+				rec.Count("sum_steps", int64(c.S.St.Steps))
+				rec.Count("sum_readies", int64(c.S.St.Readies))
+				rec.Count("sum_crashes", int64(c.S.St.Crashes))
+				rec.Count("sum_restarts", int64(c.S.St.Restarts))
 				rec.Record(c.S.TraceHash(), nt, labels, func() interface{} { return sample(c, o) })
 			},
 		})
@@ -274,3 +278,64 @@ func TestLeaderL1(t *testing.T)         { run(t, profL1, recL1) }
 func TestLeaderL2(t *testing.T)         { run(t, profL2, recL2) }
 func TestLeaderMembership(t *testing.T) { run(t, profConf, recConf) }
 func TestLeaderL3(t *testing.T)         { run(t, profL3, recL3) }
+
+// ---- regression probe of the finding recorded for this property ----
+
+// TestKnownPartialBootstrap replays the minimal schedule of
+// C01-partial-bootstrap-self-election: replica 1 of a bootstrap group {1,2,3} dies before
+// the Ready that carries the bootstrap entries reaches its WAL, comes back empty
+// (startRaft finds the WAL directory and calls RestartNode), is re-fed the log one
+// entry per message (MaxSizePerMsg = 0), applies "add node 1" with commit index 1 and,
+// knowing only itself, elects itself in the term in which replicas 2 and 3 elect 3.
+func TestKnownPartialBootstrap(t *testing.T) {
+	known.Probe(t, raftsim.KnownPartialBootstrap, func() (bool, string) {
+		msg := raftsim.Scripted(func(ct *raftsim.CollectT) {
+			p := raftsim.Params{N: 3, ElectionTick: 3, HeartbeatTick: 1, MaxSizePerMsg: 0, MaxCommittedSize: 1 << 40, MaxInflight: 8,
+				Storage: raftsim.StoreMem, Seed: 1, KeepLastAppResp: true, RealCtor: true}
+			s := raftsim.New(ct, p, newOracle())
+			defer s.Close()
+			r1, r2, r3 := s.Rep(1), s.Rep(2), s.Rep(3)
+			s.Step(r1, true, false, raftsim.CrashReadyLost, nil) // nothing of the bootstrap Ready is durable
+			s.FullStep(r2)
+			s.FullStep(r3)
+			s.Campaign(r2)
+			s.FullStep(r2)
+			s.Settle(50, nil, nil) // 2 leads term 2 with 3's vote
+			s.Restart(r1, false)   // empty WAL: no entries, no hard state, no configuration
+			s.FullStep(r1)
+			// the leader probes 1 and re-sends the log, one entry per message; stop as soon
+			// as 1 has applied entry 1 ("add node 1") with commit index 1
+			for i := 0; i < 40 && r1.App.Applied < 1; i++ {
+				s.Tick(r2)
+				s.FullStep(r2)
+				s.Settle(50, nil, func() bool { return r1.App.Applied >= 1 })
+			}
+			if r1.App.Applied != 1 {
+				ct.Fatalf("HARNESS: probe could not bring replica 1 to applied index 1 (is %d)", r1.App.Applied)
+			}
+			s.SetSides([]int{1, 0, 0})
+			for i := 0; i < 2*p.ElectionTick+1; i++ { // 1 times out, campaigns, wins its own vote: leader of term 3
+				s.Tick(r1)
+				s.FullStep(r1)
+			}
+			s.DropAll(nil)
+			s.Campaign(r3) // term 3 as well; 2 grants
+			s.FullStep(r3)
+			s.Settle(50, nil, nil)
+		})
+		if strings.HasPrefix(msg, "HARNESS:") {
+			t.Fatalf("%s", msg)
+		}
+		if msg != "" {
+			return true, firstLine(msg)
+		}
+		return false, ""
+	})
+}
+
+func firstLine(s string) string {
+	if i := strings.IndexByte(s, '\n'); i >= 0 {
+		return s[:i]
+	}
+	return s
+}
